@@ -41,6 +41,21 @@ def run(index, tier="quick", seed=0) -> Result:
         res.ok("IN-6", "Polygon.is_inside:pad")
     else:
         res.bad("IN-6", "Polygon.is_inside:pad", f"{fn.file}:{fn.lineno}", "Polygon.is_inside does not pad (N,2) points with a zero z column")
+    # IN-7: the query points are brought into the polygon's plane by the same (full) rotation as the vertices
+    from ..interp import Interp
+    P = index.cls("Polygon")
+    it = Interp(index)
+    r = it.run_entry(fn, P)
+    rot_pts = [e for e in r["events"] if e.type == "dotcall" and e.func is fn and e.left is not None and "batch" in e.left.tags
+               and e.right is not None and "orth" in e.right.tags]
+    aligned = [e for e in r["events"] if e.type == "enter" and not e.entry and e.callee.name == "_align_points_by_normal"]
+    if rot_pts and all("transposed" in e.right.tags for e in rot_pts) and aligned:
+        res.ok("IN-7", "Polygon.is_inside:rotation")
+    elif not rot_pts:
+        res.bad("IN-7", "Polygon.is_inside:rotation", f"{fn.file}:{fn.lineno}", "Polygon.is_inside does not map the query points with the full "
+                "rotation that aligned the vertices (np.dot(points, rotation.T)): for a polygon in a tilted plane points and vertices live in different frames")
+    else:
+        res.bad("IN-7", "Polygon.is_inside:rotation:forward", rot_pts[0].where(), "Polygon.is_inside rotates the points with the inverse of the rotation applied to the vertices")
     rets = [n_ for n_ in ast.walk(fn.node) if isinstance(n_, ast.Return) and n_.value is not None]
     ok = len(rets) == 1 and isinstance(rets[0].value, ast.Compare) and isinstance(rets[0].value.ops[0], ast.NotEq) \
         and isinstance(rets[0].value.comparators[0], ast.Constant) and rets[0].value.comparators[0].value == 0
@@ -49,4 +64,6 @@ def run(index, tier="quick", seed=0) -> Result:
     else:
         res.bad("IN-6", "Polygon.is_inside:parity", f"{fn.file}:{fn.lineno}", "Polygon.is_inside does not answer `winding_number != 0`: "
                 "a sign-sensitive test makes the answer depend on the vertex orientation")
+    from ..parallel import report as _copy1
+    _copy1(res, index, lambda f: f['top'] == 'is_inside' and f['cls'] in ('Polygon', 'ConvexPolygon', 'Circle', 'Ellipse'))
     return res
